@@ -107,7 +107,8 @@ class QueryGen:
         r = self.rng
         ob = [(self.expr(0), r.choice([None, None, "ASC", "DESC"])) for _ in range(r.choice([1, 1, 2]))] if r.random() < 0.35 else []
         lim = r.choice([1, 3, 10]) if r.random() < 0.3 else None
-        off = r.choice([2, 20]) if lim is not None and r.random() < 0.4 else None
+        # every subset of the three trailing clauses occurs (OFFSET alone included)
+        off = r.choice([2, 20]) if r.random() < (0.4 if lim is not None else 0.12) else None
         return ob, lim, off
 
     def operand(self, subdepth, allow_paren=True):
